@@ -121,8 +121,8 @@ Lemma close_and_send_inv s code :
 Proof.
   unfold Inv_wire, writer_close, send_frame, wire, mark_closed. intros (H1 & H2 & H3 & H4) Hc.
   specialize (H1 Hc).
-  cbn [w_closing cancel_heartbeat set_closed set_hb_cb set_need_reset set_ready set_pong_cb tr_closing sent closed].
-  rewrite cwa_close. cbn [negb]. rewrite andb_false_r.
+  cbn [w_closing set_w_closing cancel_heartbeat set_closed set_hb_cb set_need_reset set_ready set_pong_cb tr_closing sent closed].
+  rewrite cwa_close. cbn [negb andb].
   destruct (tr_closing s); cbn [fst closed w_closing sent set_sent set_w_closing WInv].
   - repeat split; intros; try discriminate; try lia; auto.
   - rewrite count_close_app, H1. cbn. repeat split; intros; try discriminate; try lia.
@@ -131,6 +131,13 @@ Qed.
 
 Lemma closed_after_close_and_send s code : closed (fst (writer_close (mark_closed s) code)) = true.
 Proof. unfold writer_close, send_frame. destruct (_ && _); [reflexivity|]. destruct (tr_closing _); reflexivity. Qed.
+
+(* once the writer is closing every data frame is refused, whatever else happens in between: this is what keeps
+   a data frame from following the close frame even if WebSocketWriter.close() is suspended in its drain *)
+Lemma data_refused_when_closing s : w_closing s = true -> send_frame s FText = (s, true).
+Proof. intros H. unfold send_frame. rewrite H, cwa_text. reflexivity. Qed.
+Lemma writer_close_flag_first s code : writer_close s code = send_frame (set_w_closing s true) (FClose code).
+Proof. reflexivity. Qed.
 
 Ltac wire_simpl :=
   repeat first
